@@ -40,6 +40,11 @@ class ZCompiler:
         return self.loader.load(name)
 
     def reset_parser(self, traditional_mode: bool = False) -> Any:
+        if os.environ.get("VERIF_REUSE_PARSER") != "1":
+            # what the real parse() does: a NEW Parser per compilation (state that survives between Parser objects --
+            # class attributes, mutable default arguments -- is then the code's own); LALR tables are cached by ply
+            self.P = self.parser_mod.Parser(traditional_mode=traditional_mode)
+            return self.P
         p = self.P
         p.scope_stack.clear()
         p.filepath_stack.clear()
